@@ -3,6 +3,7 @@ package h
 import (
 	"bytes"
 	"fmt"
+	"os"
 	"strings"
 	"time"
 
@@ -508,7 +509,10 @@ func GenC06(seed uint64, run int) *Trace {
 	for i, n := 0, r.Range(0, 5); i < n; i++ {
 		put()
 	}
-	if r.Chance(1, 12) {
+	if r.Chance(1, 12) || os.Getenv("VERIF_C06_MANY") != "" {
+		if os.Getenv("VERIF_C06_MANY") != "" {
+			t.Cfg.ZeroEOF = true // development aid: hunt for the symptoms of D3
+		}
 		// many tiny distinct blocks: the flattened index grows past 1 KiB, which is what a crash
 		// between index and header needs in order to be rescanned as plausible sections
 		for i, n := 0, r.Range(26, 44); i < n; i++ {
